@@ -1629,6 +1629,14 @@ BENIGN = [
         self._work_ids = queue.Queue()""", """        self._work_ids = queue.Queue()
         self._running_work_items = []
         self._pending_work_items = {}""")),
+    B("benign-increment-spelled-out", None,
+      (PE, """                    n_sentinels_sent += 1""", """                    n_sentinels_sent = n_sentinels_sent + 1"""),
+      (PE, """            self._queue_count += 1""", """            self._queue_count = self._queue_count + 1"""),
+      (RT, """                            registry[rtype][name] += 1""", """                            registry[rtype][name] = registry[rtype][name] + 1""")),
+    B("benign-spawn-loop-as-range", None,
+      (PE, """        while len(self._processes) < self._max_workers:
+            worker_exit_lock""", """        for _ in range(self._max_workers - len(self._processes)):
+            worker_exit_lock""")),
     B("benign-rename-workitem-attribute", ["C03", "C01", "C04"],
       (PE, """    __slots__ = ["future", "fn", "args", "kwargs"]
 
